@@ -122,8 +122,8 @@ def flat_of(pts_lists):
 
 
 def canon_intersects_bounds(it, kind, sym, box):
-    if sym is None:
-        return False
+    if sym is None or not T.coords_of(kind, sym):
+        return False            # missing or empty element: the property fixes the answer, no kernel involved
     x0, y0, x1, y1 = box
     if kind in ('point', 'multipoint'):
         lo_x, hi_x = values.py_min2(x0, x1), values.py_max2(x0, x1)
@@ -155,6 +155,8 @@ def canon_measure(it, kind, sym, which):
     """length / area of one element: the measures kernel on a fresh flat copy; constants per kind"""
     if sym is None:
         return float('nan')
+    if not T.coords_of(kind, sym):
+        return 0.0              # empty element
     if which == 'area' and kind not in ('polygon', 'multipolygon'):
         return 0.0
     if which == 'length' and kind in ('point', 'multipoint'):
@@ -380,6 +382,9 @@ def array_task(kind, deriv, dtype='float64', quantities=('isna', 'bounds', 'tota
     # ---- solve
     s = z3.Solver()
     s.add(*ts.cons)
+    lim = {'int16': 32767, 'int32': (1 << 31) - 1, 'float32': 1 << 24}.get(str(np.dtype(dtype)))
+    if lim:      # values representable in the coordinate subtype (so that counterexamples can be replayed)
+        s.add(*[z3.And(v >= -lim, v <= lim) for v in ts.zvars if z3.is_int(v) or z3.is_real(v)])
     if flags:
         # domain: an element has finite coordinates throughout, or none at all (inert); mixed elements are outside C01/C17
         for sm in syms:
@@ -664,6 +669,9 @@ def run_arrays(check, pool, Task, pid, quantities, kinds=None, derivs=None, dtyp
             for f in fnd:
                 try:
                     bad, wit = replay_finding(m['kind'], r.get('specs') or BASE[m['kind']], m['deriv'], m['dtype'], f)
+                except OverflowError:
+                    outcome.append('spurious')
+                    continue
                 except Exception as e:  # noqa: BLE001
                     check.harness_error(f"replay of {t.name} {f[:3]} failed: {type(e).__name__}: {e}\n{traceback.format_exc()[-800:]}")
                     continue
